@@ -127,6 +127,10 @@ def gen_script(rng, maxit, kind):
             cur = list(prev)
             cur[j] = prev[j] + abs(prev[j]) * rng.choice([0.25, 0.125, 0.25 + 1 / 64, -0.25, 0.0])
             s.append(cur)
+    elif kind == 'small':
+        # persisted results of small magnitude (dyadic, 2^-40 scale): only a RELATIVE test separates them
+        base = [rng.choice([1.0, 3.0, 5.0]) * 2.0 ** -40 for _ in range(max(1, L))]
+        s = [[x * (1 + (n - i) * 0.5) for x in base] for i in range(n)]
     elif kind == 'oscillating':
         a = [rng.choice(D) for _ in range(L)]
         b = [x + rng.choice([1.0, 100.0]) for x in a]
@@ -165,7 +169,8 @@ def scripted_oracle(chk, prec, maxit, scripts, obs):
     if m:
         i = int(m.group(1))
         if i < 2 or not ref_close(vecs[i - 2], vecs[i - 1], prec):
-            chk.fail('honest-convergence', f"finished after {i} iterations although iterates {i - 1} and {i} do not agree within {prec}", data)
+            if not chk.failures:
+                chk.fail('honest-convergence', f"finished after {i} iterations although iterates {i - 1} and {i} do not agree within {prec}", data)
     elif out == 'Warned':
         for i in range(2, k + 1):
             if ref_close(vecs[i - 2], vecs[i - 1], prec):
@@ -174,8 +179,35 @@ def scripted_oracle(chk, prec, maxit, scripts, obs):
 
 
 # ---- real sequences: supporting runs ------------------------------------------------------------------------
+FAULT = {'present': False, 'countdown': None}
+
+
 def flow_stress(self):
+    if FAULT['present']:
+        if FAULT['countdown'] is None or FAULT['countdown'] <= 0:
+            raise ConnectionError("injected fault")
+        FAULT['countdown'] -= 1
     return 50e6 * (1 + self.strain) ** 0.2 * self.roll_pass.strain_rate ** 0.1
+
+
+def spread_width(self, cycle):
+    """a width model in the usual plug-in style (cycle aware) that feeds results back into inputs"""
+    if cycle:
+        return None
+    rp = self.roll_pass
+    softness = (100e6 / rp.in_profile.flow_stress) ** 0.05
+    return rp.in_profile.width * rp.draught ** (-0.5 * softness)
+
+
+def stuck_flags():
+    from py2coq import hookimpls as H
+    out = []
+    for c in H.all_hookhost_classes():
+        for n in c.__hooks__:
+            for hf in getattr(c, n).functions:
+                if hf.cycle:
+                    out.append(f"{c.__qualname__}.{n}:{hf.name}")
+    return sorted(set(out))
 
 
 def make_sequence():
@@ -258,6 +290,42 @@ def real_runs(chk):
         prec = 1e-3
         if any(abs(a - b) > 5 * prec * max(abs(b), 1e-12) for a, b in zip(again, base)):
             chk.fail('resolve', "solving the same sequence again changes results by more than the precision", {})
+        # the same with a cycle-aware spread model whose input (flow stress) fails at different depths of the evaluation
+        with RollPass.OutProfile.width(spread_width):
+            ref = make_sequence()
+            ref.solve(ip())
+            ref_state = numeric_state(ref)
+            for countdown in ([None, 0, 3, 11] if not chk.thorough else [None] + list(range(0, 40, 3))):
+                sx = make_sequence()
+                FAULT['present'], FAULT['countdown'] = True, countdown
+                try:
+                    sx.solve(ip())
+                    aborted_x = False
+                except Exception:
+                    aborted_x = True
+                finally:
+                    FAULT['present'], FAULT['countdown'] = False, None
+                flags = stuck_flags()
+                if flags and not chk.failures:
+                    chk.fail('abort-flags', f"after a solve aborted by an exception (fault after {countdown} evaluations) cycle flags stay set: {flags[:4]}",
+                             {'countdown': countdown})
+                    for c in __import__('py2coq.hookimpls', fromlist=['x']).all_hookhost_classes():
+                        for n in c.__hooks__:
+                            for hf in getattr(c, n).functions:
+                                hf.cycle = False
+                    break
+                sx.solve(ip())
+                if aborted_x and any(abs(a - b) > 5 * prec * max(abs(b), 1e-12) for a, b in zip(numeric_state(sx), ref_state)):
+                    if not chk.failures:
+                        chk.fail('abort-recovery', f"after an aborted solve (fault after {countdown} evaluations) the sequence solves to different results than a fresh one",
+                                 {'countdown': countdown})
+                    break
+                fresh = make_sequence()
+                fresh.solve(ip())
+                if numeric_state(fresh) != ref_state and not chk.failures:
+                    chk.fail('abort-poisons-fresh', "a fresh sequence solved after an aborted one differs from the reference", {'countdown': countdown})
+                    break
+                chk.cov['evaluations'] += 1
         # a solve aborted by an exception leaves the sequence usable
         s4 = make_sequence()
         state = {'n': 0, 'armed': True}
@@ -298,7 +366,7 @@ def run(chk):
     chk.coq.compile('C05.v', is_props=True, timeout=300)
     rng = random.Random(chk.seed * 509 + 5)
     n = 4000 if chk.thorough else 600
-    kinds = ['converging', 'boundary', 'oscillating', 'special', 'shapes', 'raising']
+    kinds = ['converging', 'boundary', 'oscillating', 'special', 'shapes', 'raising', 'small']
     rendered, cases, dist = [], [], {}
     for i in range(n):
         kind = kinds[i % len(kinds)]
